@@ -129,6 +129,35 @@ add('C01',
     'Does not decide the guard-propagation algorithms of the jump lowerings nor value-level equivalence of whole converted programs; reference automata are the Python language reference semantics as written in the checker.',
     'DESIGN.md section 4, C01')
 
+# rules added after the first round of seeded changes (see DESIGN.md section 10)
+ADDENDA = {
+    'C01': ('linear-use / template-multiplicity analysis of user expressions (DUP-EVAL), source tracing of store-position placeholders (NEW-BINDING), state-frame requirement on block visitors, order constraint for code parked in annotations (O6); imported necessary conditions of C03 C05 C06 C07 C08 C09 C11 C13 C14',
+            ' A user expression reaches the generated code at most once on every handler path and a repeated placeholder only receives plain names; templates assign only to fresh symbols or to what the user statement binds; every block is visited inside a fresh frame of the pass state.'),
+    'C02': ('imported rules: activity traversal/order (C08), getter/setter and support-set rules (C03), closure liveness and value-type state (C07)', ''),
+    'C03': ('alias analysis of module-level mutable objects (SHARED-MUT, with positive-control fixture); abstract evaluation of QN.support_set as a structural fold (QN-SUPPORT)',
+            ' Directive tables and option nodes are per loop (no module-level mutable object is mutated through an alias); the support of a composite is the union of the supports of its parts.'),
+    'C04': ('order constraint O6 for code parked in annotations; imported cache-key / option equality rules (C10, C20)', ''),
+    'C05': ('reachability order of statement-list visits relative to the lexical-scope window (CFG-SCOPE); per-section builder state keyed by the section (CFG-KEYED)',
+            ' Loop bodies and try body/else are visited while their statement is on the lexical scope stack, loop else and finally bodies after it has left; nestable sections keep their state in tables keyed by the section.'),
+    'C06': ('value-type check of the lattice state class; imported CFG rules (C05) and activity traversal / parameter rules (C08)', ''),
+    'C07': ('value-type check of the reaching-function-definitions state; imported CFG rules (C05) and activity traversal / order / finalisation rules (C08)', ''),
+    'C08': ('must-traverse analysis of every ActivityAnalyzer / QnResolver handler over every field that can hold a Name (ACT-TRAV, constant-flag and literal-iteration aware); dominance-based visit order (ACT-ORDER)',
+            ' Every handler of the activity analysis and of the qualified-name resolver visits every symbol-bearing field on every path; comprehension iterables are visited before their targets are registered.'),
+    'C09': ('imported activity traversal rule restricted to parameter fields (C08)', ''),
+    'C10': ('guard analysis of every caching call of the unconverted path: remembered decisions depend on (function, options) only; imported option equality rules (C20)', ''),
+    'C11': ('structural fold check of QN.support_set (HYG-SUPPORT)', ''),
+    'C13': ('first-match-over-the-full-MRO rule for the defining class; imported negative-cache (C10) and status-stack rules (C16)', ''),
+    'C14': ('expansion of the arguments completing zero-argument super() to the frame\'s __class__ cell and first argument; imported policy-chain rules (C13)', ''),
+    'C15': ('module-state rule over every function on the recovery path (SRC-NOSTATE); compiled-pattern substitutions count as context-free edits', ''),
+    'C16': ('imported cache-key rule (C10): user-requested and recursive conversions are cached apart', ''),
+    'C17': ('provenance of Literal values (TREE-LITERAL); no-__wrapped__ rule on the chain that creates the loaded function', ''),
+    'C18': ('imported clean-copy rules of the template machinery (C17)', ''),
+    'C19': ('value-type check of the type map; imported CFG rules (C05) and parameter / traversal rules (C08)', ''),
+    'C20': ('reaching-definition check that the rendered feature collection is the unmodified parameter', ''),
+}
+THOROUGH = (' Thorough tier: the same rules, re-evaluated on two behaviour-preserving twins of the current tree (re-printed; locals renamed) whose verdict must agree, '
+            'and on scratch copies carrying each confirmed seeded change of the property that still applies, each of which must be reported (a missed control is ANALYSIS-ERROR).')
+
 NOT_APPLICABLE = {
     'C12': 'quantifies over run-time tracebacks, generated line layout and source-map contents, which exist only after the pipeline has run on a program; the only shape-level clause (exception re-creation table) is too small a part to claim the property through (DESIGN.md section 5)',
 }
@@ -141,6 +170,10 @@ def main():
     if p not in CHECKS:
       continue
     tech, text, note, ref = CHECKS[p]
+    if p in ADDENDA:
+      tech = tech + '; ' + ADDENDA[p][0]
+      text = text + ADDENDA[p][1]
+    text = text + THOROUGH
     checks.append({
         'property_id': p,
         'quick_cmd': 'cd /verif && /venv/bin/python -m sa.run %s --tier quick' % p,
